@@ -8,6 +8,12 @@
 //	    driver's unfinished-kernel count 0, one completion report per unit;
 //	(c) Engine.Run() returns within a logical event bound.
 //
+// Two families of cases: (trace, platform shape) pairs, each run as one
+// benchmark on one runner (sim.go), and multi-step scenarios over the public
+// API - several benchmarks per runner, repeated Run(), two platforms in one
+// process, the driver API by hand - judged after every engine stop (multi.go,
+// multigen.go).
+//
 // Every case runs in a child process (vlib/batch): the reader keeps its
 // scanner in a package variable, the driver prints to stdout and every built
 // component registers an atexit handler.
@@ -30,16 +36,62 @@ func repoDir() string {
 	return "/repo"
 }
 
-func caseAt(seed int64, canon []*caseD, i int) *caseD {
+// anyCase is either a (trace, shape) pair or a multi-step scenario.
+type anyCase struct {
+	single *caseD
+	multi  *multiD
+}
+
+func (a anyCase) name() string {
+	if a.multi != nil {
+		return a.multi.Name
+	}
+	return a.single.Name
+}
+
+func (a anyCase) witness() any {
+	if a.multi != nil {
+		return map[string]any{"index": a.multi.Index, "name": a.multi.Name, "kind": a.multi.Kind}
+	}
+	return a.single
+}
+
+// Index layout (independent of the tier): the canonical (trace, shape) battery,
+// the canonical multi-step battery, then the generated cases in blocks of 7:
+// positions 2 and 5 of a block are multi-step scenarios, the other five are
+// (trace, shape) pairs. Generated cases are numbered within their own family, so
+// pair s<n> is the same case it was before the scenarios were added.
+func caseAt(seed int64, canon []*caseD, canonM []*multiD, i int) anyCase {
 	if i < len(canon) {
 		cc := canon[i]
 		cc.Index = i
-		return cc
+		return anyCase{single: cc}
 	}
-	j := i - len(canon)
-	cd := genCase(batch.Rand("C20", seed, "cases").ForkN("s", j), j)
+	if i < len(canon)+len(canonM) {
+		m := canonM[i-len(canon)]
+		m.Index = i
+		return anyCase{multi: m}
+	}
+	j := i - len(canon) - len(canonM)
+	q, rem := j/7, j%7
+	if rem == 2 || rem == 5 {
+		k := 2*q + rem/4
+		m := genMulti(batch.Rand("C20", seed, "multi").ForkN("m", k), k)
+		m.Index = i
+		return anyCase{multi: m}
+	}
+	k := 5*q + []int{0, 1, 0, 2, 3, 0, 4}[rem]
+	cd := genCase(batch.Rand("C20", seed, "cases").ForkN("s", k), k)
 	cd.Index = i
-	return cd
+	return anyCase{single: cd}
+}
+
+func runAny(rec vlib.Recorder, a anyCase) {
+	if a.multi != nil {
+		runMulti(rec, a.multi)
+		return
+	}
+	runCase(rec, a.single)
 }
 
 func runCase(rec vlib.Recorder, c *caseD) {
@@ -75,34 +127,45 @@ func runCase(rec vlib.Recorder, c *caseD) {
 
 func main() {
 	canon := canonical()
+	canonM := canonicalMulti()
 	seed, _ := batch.SeedTier()
 	if lo, hi, ok := batch.ChildRange(); ok {
-		batch.RunChild(lo, hi, func(rec *vlib.ChildRecorder, i int) { runCase(rec, caseAt(seed, canon, i)) })
+		batch.RunChild(lo, hi, func(rec *vlib.ChildRecorder, i int) { runAny(rec, caseAt(seed, canon, canonM, i)) })
 	}
 	// --replay <file>: re-execute exactly the case of a replay file, in this process
 	for i, a := range os.Args {
 		if a == "--replay" && i+1 < len(os.Args) {
-			replay(canon, os.Args[i+1])
+			replay(canon, canonM, os.Args[i+1])
 			return
 		}
 	}
 	c := vlib.Start("C20")
-	n := len(canon) + c.N(300, 20000)
+	// 5 of 7 generated cases are (trace, shape) pairs, 2 of 7 multi-step scenarios
+	n := len(canon) + len(canonM) + c.N(420, 28000)
 
 	per := 8
 	if c.Thorough() {
 		per = 100
 	}
-	batch.Run(c, batch.Opts{N: n, First: len(canon), PerChild: per, OnCrash: func(cr batch.Crash) {
-		cd := caseAt(seed, canon, cr.Index)
-		c.Violation("C20|process-exits", fmt.Sprintf("the process running case %s exited with code %d inside the case", cd.Name, cr.ExitCode),
-			map[string]any{"case": cd, "output_tail": cr.Tail})
+	batch.Run(c, batch.Opts{N: n, First: len(canon) + len(canonM), PerChild: per, OnCrash: func(cr batch.Crash) {
+		cd := caseAt(seed, canon, canonM, cr.Index)
+		key := "C20|process-exits"
+		if cd.multi != nil {
+			key = "C20|" + cd.multi.Kind + "|process-exits"
+		}
+		c.Violation(key, fmt.Sprintf("the process running case %s exited with code %d inside the case", cd.name(), cr.ExitCode),
+			map[string]any{"case": cd.witness(), "output_tail": cr.Tail})
 	}})
 
 	c.Finish(vlib.FinishOpts{
 		Rule: "case = (trace description serialised to kernelslist.g + kernel-N.traceg, platform shape devices x SMs x sub-cores); generated from VERIF_SEED " +
 			"plus a fixed canonical battery; non-trivial = distinct case whose simulation was judged and whose trace is ragged (blocks with different warp counts or warps " +
-			"with different instruction counts) or contains an empty warp or has more thread blocks in a kernel than the device has SMs",
+			"with different instruction counts) or contains an empty warp or has more thread blocks in a kernel than the device has SMs. " +
+			"Second family (2 of 7 generated cases + a canonical battery): multi-step scenarios over the public API of nvidia/runner, driver, platform, benchmark - " +
+			"k = 2..5 benchmarks (file-based and mock, incl. empty, memcpy-only, one-kernel, the same one twice) on ONE runner before Run(); Run / AddBenchmark / Run again and two runners on one platform; " +
+			"two platforms alive in one process run one after the other, interleaved and sharing Benchmark objects; Driver.RunKernel / TraceExec.Run + TickLater + Engine.Run by hand, again after the engine went idle, " +
+			"also with both drivers of two platforms loaded before either engine runs. After EVERY engine stop the rules above are evaluated cumulatively over everything handed to that platform's driver " +
+			"(so they hold per Run), and every other platform of the process must be unchanged; a scenario is non-trivial when all its engine stops were judged",
 		Assumptions: []string{
 			"register operands are drawn from R0..R31 and R255 (the only names the shipped reader's table knows); one canonical probe leaves that set and is keyed separately",
 			"'enable lineinfo' is always 0 (the reader has no support for the extra line_num column); every memory instruction has at least one active thread",
@@ -110,6 +173,9 @@ func main() {
 			"Instruction.OpCode is accepted as nil: the reader's opcode assignment is commented out in the source; a non-nil value must equal the serialised opcode",
 			"thread-block and warp ids are unexported in the reader's structures and are not compared; blocks and warps are compared positionally in file order",
 			"termination bound = 50*(instructions+warps+blocks+kernels)+10^4 engine events; no wall clock in any verdict",
+			"Runner.Run() enqueues every benchmark the runner holds (the list is never cleared) and kicks the driver, so a second Run() is a legal use whose obligation is: all benchmarks added so far are executed once more; " +
+				"the only legal direct-driver sequence is the one Runner.Run performs: RunKernel (any number), TickLater (before, between or after them, at least once since the last engine stop), Engine.Run()",
+			"multi-step scenarios: the termination bound applies per engine run to the work handed over since the last engine stop",
 		},
 		MinNontrivial: 40,
 		MinCounters: map[string]int64{
@@ -118,11 +184,18 @@ func main() {
 			"parse_mem_insts_with_dest": 300, "parse_mem_insts_without_dest": 300, "parse_memcpy_lines_compared": 50,
 			"cases_blocks_gt_sms": 30, "cases_devices_gt_kernels": 10, "cases_a100_shape": 10, "cases_shipped_sample_trace": 3,
 			"cases_with_empty_warp": 10, "warps_delivered": 2000,
+			// usage shapes
+			"multi_scenarios_fully_conserved": 100, "multi_engine_stops_conserved_with_work": 150,
+			"multi_scenarios_multi-benchmark": 20, "multi_scenarios_rerun": 20, "multi_scenarios_two-platforms": 20, "multi_scenarios_driver-direct": 20,
+			"multi_runs_with_ge2_benchmarks": 80, "multi_second_or_later_run_calls": 50,
+			"multi_two_platform_processes": 20, "multi_two_platform_interleaved": 10, "multi_two_platform_built_before_any_run": 10,
+			"multi_driver_direct_engine_runs": 30, "multi_driver_direct_engine_runs_after_idle": 15,
+			"multi_empty_benchmarks_added": 8, "multi_one_kernel_benchmarks_added": 40, "multi_same_benchmark_added_twice": 4,
 		},
 	})
 }
 
-func replay(canon []*caseD, path string) {
+func replay(canon []*caseD, canonM []*multiD, path string) {
 	b, err := os.ReadFile(path) // before vlib.Start, which removes stale replay files
 	if err != nil {
 		fmt.Println("cannot read replay file:", err)
@@ -143,11 +216,11 @@ func replay(canon []*caseD, path string) {
 	}
 	c := vlib.Start("C20")
 	c.Seed = rf.Seed
-	cd := caseAt(rf.Seed, canon, rf.Witness.Case.Index)
-	fmt.Printf("[C20] replaying case %s (index %d, seed %d)\n", cd.Name, cd.Index, rf.Seed)
+	cd := caseAt(rf.Seed, canon, canonM, rf.Witness.Case.Index)
+	fmt.Printf("[C20] replaying case %s (index %d, seed %d)\n", cd.name(), rf.Witness.Case.Index, rf.Seed)
 	d, cleanup := vlib.Scratch("C20-replay")
 	_ = os.Chdir(d)
-	runCase(c, cd)
+	runAny(c, cd)
 	_ = os.Chdir("/")
 	cleanup()
 	if c.NumNewViolations() > 0 {
